@@ -109,7 +109,7 @@ pub fn map_constructor(
         let mut map = map_obj.borrow_mut();
         if let ExoticObject::Map { ref mut entries } = map.exotic {
             for (key, value) in pairs {
-                entries.insert(JsMapKey(key), value);
+                entries.insert(JsMapKey::new(key), value);
             }
             let len = entries.len();
             map.set_property(size_key, JsValue::Number(len as f64));
@@ -161,7 +161,7 @@ pub fn map_set(
     let mut map = map_obj.borrow_mut();
 
     if let ExoticObject::Map { ref mut entries } = map.exotic {
-        entries.insert(JsMapKey(key), value);
+        entries.insert(JsMapKey::new(key), value);
         let len = entries.len();
         map.set_property(size_key, JsValue::Number(len as f64));
     }
